@@ -133,6 +133,7 @@ def cases(ctx):
         n = len(tbl) - 1
         for a in vals:
             yield _mk('rowslice', tbl, args=[a]) if a is not None else _mk('rowslice', tbl, args=[None])
+            yield _mk('rowslice', tbl, args=[])
             for b in vals:
                 yield _mk('rowslice', tbl, args=[a, b])
                 for c in (None, 1, 2, 5):
@@ -529,7 +530,7 @@ def _judge(case, ctx):
     if sel == 'rowslice':
         a = list(args)
         try:
-            exp = list(itertools.islice(rows, *a))
+            exp = list(itertools.islice(rows, *a)) if a else list(rows)       # no slice arguments at all: every row
         except ValueError:
             return None
         mark(exp)
